@@ -210,7 +210,11 @@ func (mbs *metadataPartStorage) AppendObject(ctx context.Context, bucketName sto
 		}
 
 		if existingObject != nil {
-			if versioningEnabled {
+			// In a versioning-suspended bucket the current object may be a non-null
+			// version; the append then writes the null version and leaves that
+			// version untouched, so it shares the prefix like a new version does.
+			appendsToNonNullVersion := existingObject.VersionID != nil && *existingObject.VersionID != "null"
+			if versioningEnabled || appendsToNonNullVersion {
 				// The new version shares the unchanged prefix. Pre-acquiring registry
 				// references prevents a concurrent delete from condemning those parts.
 				allParts = make([]metadatastore.Part, 0, len(existingObject.Parts)+1)
